@@ -8,6 +8,10 @@ fn main() {
         eprintln!("usage: perpmc <Cxx> <quick|thorough> | perpmc replay <file>");
         std::process::exit(2);
     }
+    if args[1] == "trace" {
+        // perpmc trace '<cfg json or {}>' '<actions json>' : debugging aid, prints observations per step
+        std::process::exit(perpmc::props::trace(&args[2], &args[3]));
+    }
     if args[1] == "replay" {
         std::process::exit(perpmc::props::replay(&args[2]));
     }
